@@ -34,6 +34,15 @@ func swarmGen(plan *Tape, thorough bool) *GenCfg {
 	c.ExecStages = plan.Draw(2) > 0
 	c.Local = plan.Draw(3) == 1
 	c.Preflight = plan.Draw(3) == 1
+	c.NestedArrayMaps = true
+	// experiments only: switch excluded constructs back on (DESIGN.md section 14)
+	if x := os.Getenv("VERIF_ALLOW"); x != "" {
+		c.NestedMaps = strings.Contains(x, "nested,") || x == "nested"
+		c.NestedArrayMaps = !strings.Contains(x, "nonestedarrays")
+		c.InvariantInMapped = strings.Contains(x, "invariant")
+		c.SplitDisabledOut = strings.Contains(x, "splitdisabled")
+		c.DisabledMappedPipeline = strings.Contains(x, "disabledmapped")
+	}
 	return c
 }
 
@@ -173,6 +182,7 @@ func dataflowCase(c *Ctx, focus string) {
 		c.Res.Probes["instances"] += len(ev.Insts)
 		c.Res.Probes["mapped-calls"] += ev.NMapped
 		c.Res.Probes["disabled-calls"] += ev.NDisabled
+		c.Res.Probes["map-calls-inside-map-called-pipelines"] += ev.NNested
 		c.Res.Probes["statically-null-output-of-runtime-disabled-pipeline"] += ev.NStaticNull
 		c.Res.Probes["empty-or-null-map-source"] += ev.NEmptyMap
 		c.Res.Probes["struct-narrowing"] += ev.NNarrow
@@ -230,6 +240,10 @@ var AdvKeys = []string{"a.b", "a/b", "%", "%2E", "%2F", "a%2Eb", "fork0", "fork_
 	"complete", "split_complete", "a.complete", "very_long_key_abcdefghijklmnopqrstuvwxyz_0123456789_abcdefghijklmnopqrstuvwxyz"}
 
 func c11Case(c *Ctx) {
+	if c.Plan.Draw(10) == 0 {
+		c11Stale(c)
+		return
+	}
 	AdvOn = true
 	defer func() { AdvOn = false }()
 	dataflowCase(c, "C11")
